@@ -235,7 +235,10 @@ func runC10(t *testing.T, seed uint64, m *Mask) *Report {
 			}
 		}
 		e.Probe("pure_subcheck:readme_rows")
-		srv := e.NewPeer("srv", erpc.PeerConfig{})
+		// a header-stage plugin may re-route a message by resetting its service method (what plugin/ignorecase does):
+		// dispatch - and the name the handler sees - then follow the reset name
+		rewr := map[string]string{}
+		srv := e.NewPeer("srv", erpc.PeerConfig{}, &c10Rewriter{rules: rewr})
 		if unknownCall {
 			srv.SetUnknownCall(func(c erpc.UnknownCallCtx) (interface{}, *erpc.Status) {
 				tag := c10tag(c.InputBodyBytes())
@@ -390,8 +393,14 @@ func runC10(t *testing.T, seed uint64, m *Mask) *Report {
 			op               *world.Op
 		}
 		var probes []*probe
+		effective := map[string]string{} // probe name -> name after the rewriting plugin
 		addProbe := func(kind, name string) {
-			want := owner[kind+"|"+name]
+			eff := name
+			if t, ok := rewr[kind+"|"+name]; ok {
+				eff = t
+			}
+			effective[kind+"|"+name] = eff
+			want := owner[kind+"|"+eff]
 			if want == "" {
 				switch {
 				case kind == "call" && unknownCall:
@@ -411,9 +420,32 @@ func runC10(t *testing.T, seed uint64, m *Mask) *Report {
 			keys = append(keys, k)
 		}
 		sort.Strings(keys)
+		if e.Gen.Chance(0.4) {
+			for i, k := range keys {
+				kind, name := k[:4], k[5:]
+				if e.Gen.Chance(0.4) {
+					rewr[kind+"|"+name+"~al"] = name // an unregistered alias of a registered name
+				}
+				if e.Gen.Chance(0.15) {
+					// a registered name re-routed to another registered name of the same kind
+					if o := keys[(i+1+e.Gen.Intn(len(keys)))%len(keys)]; o[:4] == kind && o != k {
+						rewr[k] = o[5:]
+					}
+				}
+				if e.Gen.Chance(0.1) {
+					rewr[kind+"|"+name+"~gone"] = name + "~nowhere" // an alias of nothing
+				}
+			}
+			e.Probe("c10-rewriting-plugin")
+		}
 		for _, k := range keys {
 			kind, name := k[:4], k[5:]
 			addProbe(kind, name)
+			for _, sfx := range []string{"~al", "~gone"} {
+				if _, ok := rewr[kind+"|"+name+sfx]; ok {
+					addProbe(kind, name+sfx)
+				}
+			}
 			other := map[string]string{"call": "push", "push": "call"}[kind]
 			if proto != "http" || other == "call" {
 				addProbe(other, name) // the same name in the other namespace
@@ -470,7 +502,7 @@ func runC10(t *testing.T, seed uint64, m *Mask) *Report {
 		// the name a handler (registered or unknown) is invoked under is the name that was requested
 		nameOf := map[string]string{}
 		for _, p := range probes {
-			nameOf[p.op.Tag] = p.name
+			nameOf[p.op.Tag] = effective[p.kind+"|"+p.name]
 		}
 		for _, ev := range e.Obs.Handlers {
 			parts := strings.SplitN(ev.Arg, "|", 2)
@@ -523,4 +555,21 @@ func runC10(t *testing.T, seed uint64, m *Mask) *Report {
 	})
 	rep.Sample = strings.Join(sample, "; ")
 	return finish(rep, out)
+}
+
+// c10Rewriter is a header-stage plugin that re-routes messages by name, as plugin/ignorecase does.
+type c10Rewriter struct{ rules map[string]string }
+
+func (w *c10Rewriter) Name() string { return "rewriter" }
+func (w *c10Rewriter) PostReadCallHeader(c erpc.ReadCtx) *erpc.Status {
+	if t, ok := w.rules["call|"+c.ServiceMethod()]; ok {
+		c.ResetServiceMethod(t)
+	}
+	return nil
+}
+func (w *c10Rewriter) PostReadPushHeader(c erpc.ReadCtx) *erpc.Status {
+	if t, ok := w.rules["push|"+c.ServiceMethod()]; ok {
+		c.ResetServiceMethod(t)
+	}
+	return nil
 }
